@@ -184,6 +184,15 @@ func snapshotFallbackRules(c *Ctx) {
 
 // c08ReadPath: the order in which the state consults its tiers when reading committed data.
 func c08ReadPath(c *Ctx) {
+	// a slot written to the trie becomes the slot's origin value: the no-change test of the next flush compares against
+	// it, and a later write back to the old value would otherwise be skipped (the root then depends on the history)
+	if fn := c.Fn("kai/state", "stateObject", "updateTrie"); fn != nil {
+		origin := func(in ssa.Instruction) bool {
+			mu, ok := in.(*ssa.MapUpdate)
+			return ok && pathOf(mu.Map) == "s.originStorage"
+		}
+		c.Precedes(fn, "remember the value as the slot's origin", origin, "write the slot to the trie", CallTo(`^iface:\(kai/state\.Trie\)\.(UpdateStorage|DeleteStorage)$`, ""))
+	}
 	if fn := c.Fn("kai/state", "stateObject", "GetCommittedState"); fn != nil {
 		pend := `^s\.pendingStorage\[key\]#1$`
 		orig := `^s\.originStorage\[key\]#1$`
